@@ -68,6 +68,8 @@ type Case struct {
 	Trail    int      `json:"trail,omitempty"` // extra zero bytes after the end-of-archive marker of the input
 	Split    []int    `json:"split,omitempty"` // writer mode: entry indices at which a further AppendTar call starts
 	Ops      []Ent    `json:"ops"`             // the input tar (called ops so that the driver shrinks it)
+	// Next: further builds made, one after the other, with the SAME compressor value (format and level of this case)
+	Next []Case `json:"next,omitempty"`
 }
 
 func content(seed uint64, n int) []byte {
@@ -284,7 +286,28 @@ type result struct {
 	closes    []int64
 }
 
-func run(c Case, in []byte, calls [][]byte) (res result) {
+// compVal is one compressor VALUE; a case may use it for several builds in a row.
+type compVal struct {
+	comp   estargz.Compressor
+	ext    *externaltoc.GzipCompressor
+	shared bool
+}
+
+func newCompVal(format string, level int, shared bool) *compVal {
+	cv := &compVal{shared: shared}
+	switch format {
+	case "gzip":
+		cv.comp = estargz.NewGzipCompressorWithLevel(level)
+	case "zstd":
+		cv.comp = &zstdchunked.Compressor{CompressionLevel: zstd.SpeedFastest}
+	case "ext":
+		cv.ext = externaltoc.NewGzipCompressorWithLevel(level)
+		cv.comp = cv.ext
+	}
+	return cv
+}
+
+func run(c Case, in []byte, calls [][]byte, cv *compVal) (res result) {
 	res.uncSize = -1
 	defer func() {
 		if r := recover(); r != nil {
@@ -292,17 +315,15 @@ func run(c Case, in []byte, calls [][]byte) (res result) {
 			res.errText = fmt.Sprintf("PANIC: %v", r)
 		}
 	}()
-	var comp estargz.Compressor
+	comp, ext := cv.comp, cv.ext
 	var dec estargz.Decompressor
-	var ext *externaltoc.GzipCompressor
 	switch c.Fmt {
 	case "gzip":
-		comp, dec = estargz.NewGzipCompressorWithLevel(c.Level), &estargz.GzipDecompressor{}
+		dec = &estargz.GzipDecompressor{}
 	case "zstd":
-		comp, dec = &zstdchunked.Compressor{CompressionLevel: zstd.SpeedFastest}, &zstdchunked.Decompressor{}
+		dec = &zstdchunked.Decompressor{}
 	case "ext":
-		ext = externaltoc.NewGzipCompressorWithLevel(c.Level)
-		comp, dec = ext, externaltoc.NewGzipDecompressor(func() ([]byte, error) {
+		dec = externaltoc.NewGzipDecompressor(func() ([]byte, error) {
 			var b bytes.Buffer
 			_, err := ext.WriteTOCTo(&b)
 			return b.Bytes(), err
@@ -318,7 +339,7 @@ func run(c Case, in []byte, calls [][]byte) (res result) {
 		if c.Allow {
 			opts = append(opts, estargz.WithAllowPrioritizeNotFound(&missed))
 		}
-		if c.Fmt == "gzip" && c.MinChunk <= 0 {
+		if c.Fmt == "gzip" && c.MinChunk <= 0 && !cv.shared {
 			// the builder's own default compression object
 			opts = append(opts, estargz.WithCompressionLevel(c.Level))
 		} else {
@@ -821,7 +842,33 @@ func nChunks(size int64, chunk int) int64 {
 	return (size + cs - 1) / cs
 }
 
+// exec runs the builds of a case one after the other with one compressor value.
 func exec(c Case) (o outcome) {
+	steps := append([]Case{c}, c.Next...)
+	cv := newCompVal(c.Fmt, c.Level, len(steps) > 1)
+	var terms []string
+	for k, sc := range steps {
+		sc.Fmt, sc.Level, sc.Next = c.Fmt, c.Level, nil
+		so := execStep(sc, cv)
+		terms = append(terms, so.coq)
+		for _, p := range so.problems {
+			if len(steps) > 1 {
+				p = fmt.Sprintf("build #%d with one compressor value: %s", k+1, p)
+			}
+			o.problems = append(o.problems, p)
+		}
+		o.stats = append(o.stats, so.stats...)
+		o.nontrivial = o.nontrivial || so.nontrivial
+	}
+	if len(steps) > 1 {
+		o.stats = append(o.stats, "reuse."+c.Fmt, fmt.Sprintf("reuse.builds%d", len(steps)))
+	}
+	o.coq = hx.CoqList(terms)
+	o.key = o.coq
+	return
+}
+
+func execStep(c Case, cv *compVal) (o outcome) {
 	bad := func(f string, a ...any) { o.problems = append(o.problems, fmt.Sprintf(f, a...)) }
 	count := func(k string) { o.stats = append(o.stats, k) }
 	raw := makeTar(c)
@@ -891,7 +938,7 @@ func exec(c Case) (o outcome) {
 			count("writer.multicall.minchunk")
 		}
 	}
-	res := run(c, in, calls)
+	res := run(c, in, calls, cv)
 	count("mode." + c.Mode)
 	count("fmt." + c.Fmt)
 	count("incomp." + c.InComp)
@@ -1859,6 +1906,20 @@ func gen(r *hx.Rng) Case {
 	return c
 }
 
+// genChain: with some probability the case goes on with 1-2 further builds of DIFFERENT tars (any mode) that reuse
+// the compressor value of the first one.
+func genChain(r *hx.Rng) Case {
+	c := gen(r)
+	if r.Chance(1, 4) {
+		for k := r.Range(1, 2); k > 0; k-- {
+			n := gen(r.Fork())
+			n.Fmt, n.Level = c.Fmt, c.Level
+			c.Next = append(c.Next, n)
+		}
+	}
+	return c
+}
+
 func main() {
 	ctx := hx.Start()
 	emit := func(c Case) {
@@ -1898,6 +1959,16 @@ func main() {
 			reg("/p", 30), reg("//"+tocName, 40), reg("r", 1500), reg("./q", 513), reg("../"+tocName, 50), reg("/"+prefetchLM, 1)}},
 		{Mode: "build", Fmt: "gzip", Chunk: 1000, MinChunk: 2000, Level: 1, Workers: 2, InComp: "none", Ops: []Ent{reg("dir/sub/d", 1200), reg("dir//sub/d", 10), reg("dir/sub/./d", 2100), reg("e", 5)}},
 		{Mode: "writer", Fmt: "gzip", Chunk: 100, Level: 1, InComp: "none", Ops: []Ent{reg("a", 10), reg("./a", 120), reg("/a", 0)}},
+		// one compressor VALUE used for several builds of different tars (external TOC: WriteTOCTo must give the TOC of the last build)
+		{Mode: "build", Fmt: "ext", Chunk: 100, Level: 1, Workers: 2, InComp: "none", Ops: []Ent{reg("first/a", 250), reg("first/b", 10)},
+			Next: []Case{{Mode: "build", Chunk: 64, Workers: 3, InComp: "none", Ops: []Ent{reg("second/x.txt", 300), reg("second/y.txt", 1), reg("second/z.txt", 129)}},
+				{Mode: "writer", Chunk: 512, InComp: "gzip", Ops: []Ent{reg("third", 700)}}}},
+		{Mode: "writer", Fmt: "ext", Chunk: 100, MinChunk: 300, Level: 9, InComp: "none", Ops: []Ent{reg("a", 120), reg("b", 5)},
+			Next: []Case{{Mode: "lossless", Chunk: 100, InComp: "none", Ops: []Ent{reg("c", 333)}}}},
+		{Mode: "build", Fmt: "zstd", Chunk: 100, Workers: 2, InComp: "none", Ops: []Ent{reg("a", 250)},
+			Next: []Case{{Mode: "build", Chunk: 100, MinChunk: 300, Workers: 1, InComp: "none", Ops: []Ent{reg("b", 150), reg("c", 150)}}}},
+		{Mode: "build", Fmt: "gzip", Chunk: 100, Level: 1, Workers: 2, InComp: "none", Ops: []Ent{reg("a", 250)},
+			Next: []Case{{Mode: "writer", Chunk: 64, InComp: "none", Ops: []Ent{reg("b", 150)}}, {Mode: "build", Chunk: 0, Workers: 4, InComp: "none", Ops: []Ent{reg("c", 99), reg("d", 0)}}}},
 		// two AppendTar calls sharing one compression stream (C03-fix-1)
 		{Mode: "writer", Fmt: "gzip", MinChunk: 5000, Level: 1, InComp: "none", Split: []int{1}, Ops: []Ent{reg("a", 300), reg("b", 200)}},
 		{Mode: "writer", Fmt: "zstd", Chunk: 100, MinChunk: 300, InComp: "gzip", Split: []int{1, 2}, Ops: []Ent{reg("a", 250), reg("b", 200), {Name: "d/", Type: "dir", Mode: 0o755}, reg("c", 1)}},
@@ -1907,7 +1978,7 @@ func main() {
 	}
 	r := hx.NewRng(ctx.Seed)
 	for i := len(corpus); i < ctx.N; i++ {
-		emit(gen(r.Fork()))
+		emit(genChain(r.Fork()))
 	}
 	ctx.Finish()
 }
